@@ -19,7 +19,7 @@ RULE = (
 RULE += (" " + 'The menu includes multi-condition rules whose later condition fails and a good rule sharing its nested condition text with a failing rule; the stand-alone references are computed with emptied module caches of the library.')
 ASSUMPTIONS = ["per-rule fresh conversion (new backend class instance, new pipeline from the same dict, freshly loaded rule) is the reference",
                "errors are compared by type and message"]
-MENU = ["ok1", "ok2", "ok_lin", "off", "F_pipe", "F_item", "F_ph", "F_type", "F_cond", "F_neg", "ok_cased_sw", "F_cond2", "F_ph2", "ok_opt"]
+MENU = ["ok1", "ok2", "ok_lin", "off", "F_pipe", "F_item", "F_ph", "F_type", "F_cond", "F_neg", "ok_cased_sw", "F_cond2", "F_ph2", "ok_opt", "F_load"]
 BOUNDS = {"quick": dict(n=4), "thorough": dict(n=5)}
 
 
@@ -38,6 +38,8 @@ def rule_dict(kind, i):
         # several conditions, a later one fails after an earlier one was converted
         # selectors that match no detection: the optional part vanishes from the condition
         "ok_opt": {"sel": {"f1": f"o{i}"}, "condition": ["sel and not 1 of filter_*", "sel or all of nope*"]},
+        # loaded with collected errors: the detection section is a placeholder, the rule cannot be converted
+        "F_load": {"sel": {"f1|re": "(a"}, "condition": "sel"},
         "F_cond2": {"sel": {"f1": f"c{i}"}, "condition": ["sel", "sel and missing"]},
         "F_ph2": {"sel": {"f1": f"p{i}"}, "ph": {"f2|expand": "%nope%"}, "condition": ["sel", "sel or ph", "sel"]},
         "F_pipe": {"sel": {"f1": "x"}, "condition": "sel"},
@@ -90,7 +92,7 @@ def mk_backend(kname, pname, collect, fresh_class=True):
 def load(kind, i):
     from sigma.rule import SigmaRule
 
-    r = SigmaRule.from_dict(rule_dict(kind, i))
+    r = SigmaRule.from_dict(rule_dict(kind, i), collect_errors=(kind == "F_load"))
     if kind == "off":
         r.disable_output()
     return r
@@ -186,7 +188,7 @@ def expected(hist, kname, pname, collect):
 
 def stage_of(kind):
     return {"F_pipe": "pipeline-rule-failure", "F_item": "pipeline-item-failure", "F_ph": "unresolved-placeholder", "F_type": "unsupported-value-type",
-            "F_cond": "missing-detection", "F_neg": "placeholder-under-not", "F_cond2": "missing-detection-in-later-condition", "F_ph2": "unresolved-placeholder-in-later-condition"}.get(kind, kind)
+            "F_cond": "missing-detection", "F_neg": "placeholder-under-not", "F_cond2": "missing-detection-in-later-condition", "F_ph2": "unresolved-placeholder-in-later-condition", "F_load": "loaded-with-errors"}.get(kind, kind)
 
 
 def judge(res, st, hist, kname, pname, collect):
